@@ -36,6 +36,37 @@ def getter_field(body):
     return None
 
 
+def getter_field_deep(F, body):
+    """getter_field through private accessor methods of the same type (`self.steps_stats().passed`): on the getter's deep path table
+    (own inherent methods inlined) the one row returns a field path of `self`."""
+    from . import deep as D
+    from .termtypes import _field_map, adt_path
+    adt = (body.impl or {}).get("self_adt")
+    own = lambda cb: bool(cb.impl and cb.impl.get("self_adt") == adt and not cb.impl.get("trait"))
+    rows = D.Deep(F, body, max_paths=10, inline_only=own).run()
+    if len(rows) != 1 or rows[0].cut or rows[0].conds or any(e[0] == "call" for e in rows[0].effects):
+        return None
+    t, idxs = rows[0].ret, []
+    while isinstance(t, tuple) and t:
+        if t[0] in ("ref", "refto", "deref", "conv") and len(t) == 2:
+            t = t[1]
+        elif t[0] == "field" and isinstance(t[2], int):
+            idxs.append(t[2])
+            t = t[1]
+        else:
+            break
+    if t not in (("arg", 1), ("L", 0, 1)) or not idxs:
+        return None
+    fm, names, cur = _field_map(F), [], adt
+    for i in reversed(idxs):
+        ent = fm.get((cur, i))
+        if ent is None:
+            return None
+        names.append(ent[0])
+        cur = adt_path(ent[1])
+    return tuple(names)
+
+
 def own_state_stats(F):
     """Types whose verdict getters read their own fields: T -> {getter -> field path}."""
     out = {}
@@ -43,7 +74,7 @@ def own_state_stats(F):
         fields = {}
         for g in STATS_GETTERS:
             if g in ms:
-                fp = getter_field(ms[g])
+                fp = getter_field(ms[g]) or getter_field_deep(F, ms[g])
                 if fp is not None:
                     fields[g] = fp
         if len(fields) == len(STATS_GETTERS):
